@@ -38,8 +38,17 @@ func (mh *MessageHandler) FromNet(p peer.ID, r io.Reader) (message.GraphSyncMess
 
 // FromMsgReader can deserialize a DAG-CBOR message into a GraphySyncMessage
 func (mh *MessageHandler) FromMsgReader(_ peer.ID, r msgio.Reader) (message.GraphSyncMessage, error) {
+	// the stream ends in an orderly way only between messages: once a length
+	// prefix has been read, the message it announces must follow
+	length, err := r.NextMsgLen()
+	if err != nil {
+		return message.GraphSyncMessage{}, err
+	}
 	msg, err := r.ReadMsg()
 	if err != nil {
+		if err == io.EOF && length > 0 {
+			err = io.ErrUnexpectedEOF
+		}
 		return message.GraphSyncMessage{}, err
 	}
 
